@@ -402,3 +402,33 @@ func HarnessC13JSONNumber() {
 	verifAssert(asNumber == asFloat, "json-number-verdict-equals-float64-verdict")
 	verifReach("end")
 }
+
+// HarnessC13JSONNumberWide: integer literals beyond 2^53 carried as json.Number give the verdict of the
+// int64 carrying the same number (both carriers are exact; float64 is not), for type number, integer
+// and none.
+func HarnessC13JSONNumberWide() {
+	x := verifPickInt(9007199254740993, -9007199254740993, 9007199254740992, 4611686018427387905)
+	s := spec.Schema{}
+	switch verifChoose(3) {
+	case 1:
+		s.Type = spec.StringOrArray{"number"}
+	case 2:
+		s.Type = spec.StringOrArray{"integer"}
+	}
+	switch verifChoose(3) {
+	case 0:
+		m := verifPickFloat(9007199254740992, -9007199254740992)
+		s.Maximum, s.ExclusiveMaximum = &m, verifBool()
+	case 1:
+		m := verifPickFloat(9007199254740992, -9007199254740992)
+		s.Minimum, s.ExclusiveMinimum = &m, verifBool()
+	default:
+		f := 2.0
+		s.MultipleOf = &f
+	}
+	asNumber := NewSchemaValidator(&s, nil, "", nil).Validate(verifJSONNumberInt(x)).IsValid()
+	asInt := NewSchemaValidator(&s, nil, "", nil).Validate(x).IsValid()
+	verifObserve("asInt", asInt)
+	verifAssert(asNumber == asInt, "json-number-verdict-equals-int64-verdict")
+	verifReach("end")
+}
